@@ -201,18 +201,19 @@ ValidJumpdest(code, w) == IF Small(w)
 (*   ret  return data of the outermost call                                  *)
 (*   gf   some frame failed for a gas-class reason the specification knows   *)
 (*   n, hw, dp   steps, highest stack, deepest kvm.depth (for invariants)    *)
-(*   fc, bad, gw ghost: frame counter, ids of failed frames, journal of      *)
-(*        SSTORE/LOG writes <<ancestor ids, ro, kind, account, key, value>>  *)
+(*   fc, par, bad, gw  ghost: frame counter, parent id of every frame,       *)
+(*        ids of failed frames, journal of SSTORE/LOG writes                 *)
+(*        <<frame id, ro, kind, account, key, value>>                        *)
 (* A frame: kind, self (storage/balance context), caddr (CALLER), val        *)
 (* (CALLVALUE), code, pc, st (top = last), mem, inp, rd (return data buffer),*)
 (* ro (static), sw/sl (snapshot of w/lg taken on entry), out (where the      *)
-(* caller wants the output: <<offset, size>>), id/anc (ghost).               *)
+(* caller wants the output: <<offset, size>>), id (ghost).                   *)
 (***************************************************************************)
 RootFrame == [kind |-> "root", self |-> Origin, caddr |-> Origin, val |-> 0, code |-> <<>>, pc |-> 0,
               st |-> <<>>, mem |-> <<>>, inp |-> <<>>, rd |-> <<>>, ro |-> FALSE,
-              sw |-> <<>>, sl |-> <<>>, out |-> <<0, 0>>, id |-> 0, anc |-> <<0>>]
+              sw |-> <<>>, sl |-> <<>>, out |-> <<0, 0>>, id |-> 0]
 InitMachine(w0) == [fr |-> <<RootFrame>>, w |-> w0, lg |-> <<>>, halt |-> "", ret |-> <<>>, gf |-> FALSE,
-                    n |-> 0, hw |-> 0, dp |-> 0, fc |-> 0, bad |-> {}, gw |-> <<>>]
+                    n |-> 0, hw |-> 0, dp |-> 0, fc |-> 0, par |-> <<>>, bad |-> {}, gw |-> <<>>]
 
 Top(m) == m.fr[Len(m.fr)]
 SetTop(m, f) == [m EXCEPT !.fr[Len(m.fr)] = f]
@@ -261,8 +262,8 @@ Enter(m, kind, self, caddr, val, code, inp, ro, sw, out) ==
   ELSE LET id == m.fc + 1
            f == [kind |-> kind, self |-> self, caddr |-> caddr, val |-> val, code |-> code, pc |-> 0,
                  st |-> <<>>, mem |-> <<>>, inp |-> inp, rd |-> <<>>, ro |-> ro,
-                 sw |-> sw, sl |-> m.lg, out |-> out, id |-> id, anc |-> Append(Top(m).anc, id)]
-       IN [m EXCEPT !.fr = Append(m.fr, f), !.fc = id, !.dp = Max(m.dp, Len(m.fr))]
+                 sw |-> sw, sl |-> m.lg, out |-> out, id |-> id]
+       IN [m EXCEPT !.fr = Append(m.fr, f), !.fc = id, !.par = Append(m.par, Top(m).id), !.dp = Max(m.dp, Len(m.fr))]
 
 \* value operand of CALL / CALLCODE / CREATE: a natural, -1 = certainly more than any balance, -2 unknown
 ValOf(vw) == IF Small(vw) THEN N(vw) ELSE IF Conc(vw) \/ Huge(vw) THEN -1 ELSE -2
@@ -338,7 +339,7 @@ PushW(m, f, r) == Res(m, f, 0, r)
 MemThen(m, n, cont(_)) == IF n = -1 THEN GasFail(m) ELSE IF n = -2 THEN Oom(m) ELSE cont(n)
 ByteAt(code, k) == IF k <= Len(code) THEN code[k] ELSE 0
 
-Journal(m, f, kind, key, val) == Append(m.gw, <<f.anc, f.ro, kind, f.self, key, val>>)
+Journal(m, f, kind, key, val) == Append(m.gw, <<f.id, f.ro, kind, f.self, key, val>>)
 
 \* CALLDATACOPY / CODECOPY / EXTCODECOPY: copy a zero padded slice of `src` into memory
 CopyOp(m, f, k, memW, offW, lenW, src) ==
@@ -405,7 +406,7 @@ Exec(m, f, op) ==
          \* memory is expanded first; then: offset not uint64, or offset + length beyond the buffer -> error
          LET go(n) == IF ~(Conc(y) \/ Huge(y)) THEN Oom(m)
                       ELSE LET len == IF z = Z32 THEN 0 ELSE N(z) IN
-                           IF ~Small(y) \/ N(y) + len > Len(f.rd) THEN FailFrame(m)  \* ErrReturnDataOutOfBounds
+                           IF ~SmallLe(y, B30) \/ N(y) + len > Len(f.rd) THEN FailFrame(m)  \* ErrReturnDataOutOfBounds
                            ELSE LET mem1 == Expand(f.mem, n) IN
                                 Adv(m, [f EXCEPT !.st = Drop(s, 3),
                                                  !.mem = IF len = 0 THEN mem1
@@ -540,14 +541,16 @@ Bounded(m) == m.hw <= StackLimit /\ m.dp <= DepthLimit + 1
 StaticClean(m) == \A i \in 1..Len(m.gw) : ~m.gw[i][2]
 \* journal formulation of "a reverted or failed frame leaves no state change": the final storage and
 \* logs are exactly the writes of the frames none of whose ancestors (or themselves) failed, in order
-Committed(m, i) == \A j \in 1..Len(m.gw[i][1]) : m.gw[i][1][j] \notin m.bad
+\* the writing frame and all its ancestors (par: parent ids; 0 = the root) ended successfully
+Committed(m, i) == LET RECURSIVE Good(_)
+                       Good(id) == id = 0 \/ (id \notin m.bad /\ Good(m.par[id]))
+                   IN Good(m.gw[i][1])
 LastWrite(m, a, k) == LET I == {i \in 1..Len(m.gw) : m.gw[i][3] = "st" /\ m.gw[i][4] = a /\ m.gw[i][5] = k /\ Committed(m, i)}
                       IN IF I = {} THEN 0 ELSE CHOOSE i \in I : \A j \in I : j <= i
 JournalAgrees(m, w0) ==
   /\ \A a \in DOMAIN m.w \cup DOMAIN w0 :
        \A k \in DOMAIN Acct(m.w, a).st \cup DOMAIN Acct(w0, a).st \cup {m.gw[i][5] : i \in {j \in 1..Len(m.gw) : m.gw[j][3] = "st"}} :
           LET i == LastWrite(m, a, k) IN
-          \* a creation over an account wipes its storage: only compare accounts that were not re-created
           SGet(Acct(m.w, a).st, k) = IF i = 0 THEN SGet(Acct(w0, a).st, k) ELSE m.gw[i][6]
   /\ LET L == {i \in 1..Len(m.gw) : m.gw[i][3] = "log" /\ Committed(m, i)}
      IN /\ Cardinality(L) = Len(m.lg)
